@@ -38,7 +38,7 @@ RangeOK == (m # <<>> /\ s8 # 0) =>
   LET M == Len(m)
       bd == bn[1] + bn[2]
       D8 == ConvDist(Double(m), bn, K)
-      r == LookupPv(m, p, bn, bd, K, GI, s8, SeedFromRow0)
+      r == LookupPv(m, p, bn, bd, K, GI, 4, s8, SeedFromRow0)
       lo == TailWhere(D8, LAMBDA w : (w - s8) * GI >= 8 * (M + 1))
       hi == TailWhere(D8, LAMBDA w : (w - s8) * GI >= -(8 * (M + 2)))
   IN /\ 0 <= r[1] /\ r[1] <= r[2] /\ r[2] <= Pow(bd, M)
